@@ -1,6 +1,7 @@
 #!/bin/bash
 # tools_mutant.sh <patch.diff> [--notests] <ID>...   : apply a patch to /repo, (optionally) run the
 # repository's own tests, run the given checks (quick tier, VERIF_RUNS honoured), revert.
+export VERIF_EVIDENCE_DIR=/verif/target/mutant_evidence; mkdir -p $VERIF_EVIDENCE_DIR
 P="$1"; shift
 TESTS=1; if [ "$1" = "--notests" ]; then TESTS=0; shift; fi
 cd /repo || exit 2
